@@ -26,6 +26,7 @@ def handlers : List (String × Handler) := [
   ("dom.sc", Domains.sc),
   ("dom.spt", Domains.spt),
   ("dom.c1p", Domains.c1p),
+  ("dom.nearly", Domains.nearly),
   ("c05.profile", C05.profile),
   ("c05.matrix", C05.matrix)
 ]
